@@ -78,11 +78,6 @@ Definition model_eqb (c : cfg) (e : env) (st : pinset) (k : call) (o : obsres) (
   | _, _ => false end.
 
 (* ---- the property, on the implementation's own observation ---- *)
-Definition with_defaults (c : cfg) (o : opts) : opts :=
-  set_factors (if o_rmin o =? 0 then def_min c else o_rmin o) (if o_rmax o =? 0 then def_max c else o_rmax o) o.
-
-Definition everywhere (o : opts) : bool := (o_rmin o =? -1) && (o_rmax o =? -1).
-
 (* identical to what is stored: nothing the stored entry records differs, and nothing is asked that it cannot record *)
 Definition identical_req (o' : opts) (d : Z) (ex : pin) : bool :=
   opts_sem_eqb (pb_norm_opts d o') (p_opts ex) && expire_eqb (o_expire o') (o_expire (p_opts ex))
@@ -92,11 +87,7 @@ Definition literal_req (o' : opts) (ex : pin) : bool :=
   list_eqb N.eqb (o_origins o') (o_origins (p_opts ex)) && meta_eqb (o_meta o') (o_meta (p_opts ex)).
 
 (* update: entry t is the source entry under the new CID, source recorded, name / expiry overridden as coded *)
-Definition update_expected (now : Z) (ex : pin) (f t : N) (o : opts) : pin :=
-  let o2 := set_update (Some f) (p_opts ex) in
-  let o3 := if (o_name o =? 0)%N then o2 else set_name (o_name o) o2 in
-  let o4 := match o_expire o with Some x => if t_after x now then set_expire (Some x) o3 else o3 | None => o3 end in
-  pb_norm (mk_pin o4 t (p_ty ex) (p_allocs ex) (p_depth ex) (p_ref ex)).
+Definition update_expected (now : Z) (ex : pin) (f t : N) (o : opts) : pin := pb_norm (updated_pin now ex f t o).
 
 Definition spec_update (c : cfg) (e : env) (st : pinset) (f t : N) (o : opts) (r : obsres) (st' : pinset) : bool :=
   match r with
